@@ -292,7 +292,7 @@ fn never_stored(run: &mut Run) {
             other => run.violation(Violation {
                 signature: "C20|silence|never-stored-proposition-has-no-answer".into(),
                 summary: format!(
-                    "BELIEF (s, pred, v) over a fully grounded tuple nobody ever asserted answered {:?}; the agent-facing syntax card (KIPSyntax.md, BELIEF output) promises `insufficient`, not zero rows",
+                    "BELIEF (s, pred, v) over a fully grounded tuple that was never stored answered {:?}: the agent-facing syntax card (KIPSyntax.md 2.1) promises `insufficient`, not zero rows, so the statement's first clause (\"it is 'insufficient'\") fails for a never-stored proposition; the answer is never `rejected`, so the core (silence is not rejection) holds",
                     other.map(|rows| rows.into_iter().map(|r| r.raw).collect::<Vec<_>>())
                 ),
                 replay: json!({"relation": "never-stored"}),
